@@ -411,6 +411,22 @@ def C08.holds (c : Ctx) (j : Journal) : Bool :=
   unt.all (fun x => attempted.contains x.name ||
     unt.all (fun y => !tainted.contains y.name || !decide (x.created < y.created)))
 
+/-- The exemption of the property is for nodes "whose taint write was attempted and failed". A node that was fetched
+    successfully, whose fetched copy carries no escalator taint, and for which no UPDATE was issued at all has had no
+    write attempted and nothing fail: it must not be older than a node tainted in the same scan. -/
+def C08.skippedBad (c : Ctx) (paired : List (Entry × Resp)) : List String :=
+  let unt := nodesOf c.dry c.st .untainted c.view.nodes
+  let j := paired.map (·.1)
+  let tainted := taintedNames c.view j
+  let updated := j.filterMap (fun e => match e.call with | .updateNode o => some o.name | _ => none)
+  let fetchedClean := paired.filterMap (fun (e, r) => match e.call, r with
+    | .getNode _, .node n => if e.ok && !hasTaint escKey n then some n.name else none
+    | _, _ => none)
+  if c.dry then [] else
+  (unt.filter (fun x => fetchedClean.contains x.name && !updated.contains x.name &&
+      unt.any (fun y => tainted.contains y.name && decide (x.created < y.created)))).map (fun x =>
+    "node " ++ x.name ++ " was fetched, carries no escalator taint, no write was attempted for it, and it stays untainted although strictly older than a node tainted in this scan " ++ toString tainted)
+
 end Spec
 end Esc
 
